@@ -192,6 +192,9 @@ def make_phase(name, beh, ctx):
       ctx.calls.append(('run_if', name))
       if run_if == 'raise':
         raise PhaseBoom('run_if failed')
+      if run_if == 'once':     # a one-shot gate: true the first time it is asked, false afterwards
+        k = ctx.counts['runif:' + name] = ctx.counts.get('runif:' + name, 0) + 1
+        return k == 1
       return run_if == 'true'
     kw['run_if'] = run_if_fn
   kw.update(opts)
